@@ -455,6 +455,24 @@ theorem edge_array_symmetric_int (rows : List (Int × Int)) (weights : Option (L
   rw [hent i j, hent j i]
   exact undirected_symmetric f hd hb _ _ _
 
+/-- **the graph of an edge multiset.** With `sum_duplicates` on, the specified entries do not depend on the order
+    in which the edges are listed: the matrix is a function of the *multiset* of (edge, weight) pairs. (With
+    `sum_duplicates` off the first occurrence wins, by definition.) -/
+theorem specEntry_perm [DecidableEq α] (f : Flags) (hs : f.sumDuplicates = true)
+    (es es' : List ((α × α) × Rat)) (hp : es.Perm es') (a b : α) :
+    specEntry f es a b = specEntry f es' a b := by
+  have hl : ∀ x y : α, (listed es x y).Perm (listed es' x y) := by
+    intro x y
+    unfold listed
+    exact (hp.filter _).map _
+  have hb : ∀ x y : α, baseEntry f (listed es x y) = baseEntry f (listed es' x y) := by
+    intro x y
+    unfold baseEntry
+    simp only [hs, if_true]
+    rw [rsum_perm _ _ (hl x y), any_perm _ _ _ (hl x y)]
+  unfold specEntry
+  rw [hb a b, hb b a]
+
 /-- **F13, pinned code.** With `directed2undirected(matrix)` called with its default `weighted=True`, the
     unweighted undirected graph with the two reciprocal edges (0,1), (1,0) gets the entry 2: not binary. -/
 theorem pinned_unweighted_not_binary :
